@@ -91,6 +91,8 @@ type poolWalk struct {
 	puts int
 	nD   int
 	seen map[string]bool
+	// Put sites of this pooled object: deferred ones (incl. inside deferred closures) and direct ones
+	defPuts, dirPuts []ssa.Instruction
 }
 
 func (p *poolWalk) bad(construct, why string, in ssa.Instruction) {
@@ -191,6 +193,9 @@ func (p *poolWalk) confine(fn *ssa.Function, seeds []ssa.Value, isTop, inDefer b
 						p.puts++
 						if _, isDefer := x.(*ssa.Defer); !isDefer && !inDefer {
 							ndPuts = append(ndPuts, x)
+							p.dirPuts = append(p.dirPuts, x)
+						} else {
+							p.defPuts = append(p.defPuts, x)
 						}
 						continue
 					}
@@ -377,6 +382,24 @@ func rulePoolDiscipline(c *Check, w *World, tb *TB, rule string, fns []*ssa.Func
 			poolT := tb.Of(g.Common().Args[0]).String()
 			p := &poolWalk{c: c, w: w, tb: tb, rule: rule, top: f, site: fmt.Sprintf("Get#%d[%s]", gi, poolT), ok: true, seen: map[string]bool{}}
 			p.confine(f, []ssa.Value{gv}, true, false, 0)
+			// released once: a deferred Put plus any other Put, or two direct Puts one of which can follow the other,
+			// hand the same object to the pool twice — two later Gets then share it
+			switch {
+			case len(p.defPuts) > 0 && len(p.defPuts)+len(p.dirPuts) > 1:
+				other := p.defPuts[0]
+				if len(p.dirPuts) > 0 {
+					other = p.dirPuts[0]
+				}
+				p.bad("double-Put", "the pooled object is returned to the pool twice (a deferred Put and another Put both run): two later calls can be handed the same buffer", other)
+			case len(p.dirPuts) > 1:
+				for i, a := range p.dirPuts {
+					for j, b := range p.dirPuts {
+						if i != j && a.Parent() == b.Parent() && instrReaches(a, b) {
+							p.bad("double-Put", "the pooled object is returned to the pool twice on one path: two later calls can be handed the same buffer", b)
+						}
+					}
+				}
+			}
 			if p.ok {
 				c.OK(rule, FuncName(f), p.site, fmt.Sprintf("pooled buffer confined to the call: %d derived values followed, %d Put site(s); never returned/stored/captured/re-sliced upward, length reset before use, no use after a non-deferred Put", p.nD, p.puts), w.InstrPos(g))
 			}
